@@ -151,11 +151,26 @@ seq(prop="C02", lean_targets=["TransportVerif.Props.C02"], driver_args=["C02"],
          "16384 allocations. non-trivial = a mapping is reused, refreshed, re-allocated after expiry, a second mapping of the same endpoint exists, the port "
          "range is exhausted, or 1:1 mode; distinct = hash of the ops text",
     design_ref="DESIGN.md 7.2", technique="Lean 4 proof: invariant over call histories (maps are inverse views, ports injective) and refinement to the mapping-history spec; differential correspondence model vs. Go",
-    level_text="PENDING", level_note="PENDING", **_NAT_COMMON)
+    level_text="Theorem judged (Props/C02.lean): for every NAT the constructor accepts (3x3 behaviours, any lifetime >= 0, 1:1 mode with k pairs) and EVERY history of outbound/inbound datagrams and time steps of any length — including more allocations than there are ports — every answer of the model is admitted by the judgements of Spec/Nat.lean on the recorded history: same internal endpoint and agreeing destination while alive => same external address; otherwise a fresh address on the router's IP with a port in 49152..65535 held by no live mapping, or a refusal once 16384 addresses were handed out. ext_valid, ext_injective (external ports pairwise different in every reachable state), one_to_one_outbound. Proved through an abstract single-list machine (the two Go maps are shown to be two key views of one mapping list), invariant WfL and a refinement relation to the mapping-history spec. The model is tied to nat.go by differential runs comparing every result and both maps, filters, remaining lifetimes and the port counter after every call.", level_note="Trusted: Lean kernel + standard axioms; reading of C02 in Spec/Nat.lean; hypothesis portsOk (UDP ports <= 65535; without it the statement is false in the model because Addr.port is an unbounded Nat — counterexample recorded in the docstring); time advance by shifting expiry stamps; string keys as tuples; net.ResolveUDPAddr as 'fails iff port > 65535'. A gap exactly equal to the lifetime is left as the code has it (not expired) and is not exercised by the harness.", **_NAT_COMMON)
 seq(prop="C03", lean_targets=["TransportVerif.Props.C03"], driver_args=["C03"],
     nontrivial=["admitted", "refused-noperm", "refused-expired", "refused-unknown", "refused-unpaired"],
     rule="as C02; non-trivial = the history contains an inbound datagram (admitted, refused for lack of permission, to an expired or never allocated address, or to an unpaired 1:1 address); distinct = hash of the ops text",
     design_ref="DESIGN.md 7.3", technique="Lean 4 proof: exact admission rule as decision logic over the mapping-history spec; refused inbound is silent (state equality up to expired entries); differential correspondence model vs. Go",
-    level_text="PENDING", level_note="PENDING", **_NAT_COMMON)
+    level_text="Theorems inbound_judged (every inbound answer equals NatSpec.allowedIn: forwarded to the mapping's creator iff a live mapping owns the destination and the sender matches a permission recorded by an earlier outbound datagram of that mapping; dropped otherwise), inbound_is_silent (for every reachable state, an inbound datagram — forwarded or refused — changes no later answer; proved via canon = the unexpired mappings), inbound_to_owner, one_to_one_inbound (Props/C03.lean). Same model and tie as C02; every refused inbound of the generated histories is followed by further calls whose answers are compared.", level_note='Trusted: as C02. Payload and source address of a forwarded datagram are checked by the harness on the real chunk (the model does not carry payloads).', **_NAT_COMMON)
+
+seq(prop="C13", lean_targets=["TransportVerif.Props.C13"], pkg="vnet", run="^TestVerifRouterAddr$", component="router",
+    files=["addr_h_test.go"], quick_n=4000, thorough_n=150000,
+    variants=[dict(name="router"), dict(name="host", run="^TestVerifHostAddr$", component="host")],
+    nontrivial=["static-in-auto-range", "auto-skips-static", "exhausted", "conflict", "ephemeral-skips-used", "same-port-other-ip", "probe-hit", "wildcard"],
+    rule="router part: random orders of static (pairwise distinct, biased to the automatic range just ahead of the counter, outside the subnet, several per NIC) and "
+         "automatic attachments on /24, /16 and /25 routers, 8% of the cases attach 260 NICs; host part: histories of ListenUDP/ListenPacket/DialUDP with specific, "
+         "wildcard, loopback and foreign addresses, explicit ports and port 0 (the draw of assignPort scripted by reseeding math/rand), Close, and probe datagrams; "
+         "4% fill 5000-5999. non-trivial = static address inside the automatic range, automatic assignment skipping a taken address, exhaustion, a bind conflict, "
+         "an ephemeral search skipping used ports, two IPs on one port, a probe delivered; distinct = hash of the ops text",
+    design_ref="DESIGN.md 7.13", technique="Lean 4 proof: invariants of the address table and the socket table by induction over operation histories, bind success as an iff; differential correspondence model vs. Go",
+    level_text="PENDING", level_note="PENDING",
+    trusted=LEAN_TB + ["hand-written Lean models Model/Addressing.lean (router assignment; host socket table) validated against Router.AddNet and Net.ListenUDP/ListenPacket/DialUDP/Close/onInboundChunk (answers; lastID, nics, portMap white-box)",
+                       "reading of C13 in Spec/Addressing.lean"],
+    assumptions=["static addresses supplied by the user are pairwise distinct (the property's quantifier)", "IPv4 only"])
 
 ALL = SEQ
